@@ -195,6 +195,20 @@ def _slice(t, lo, w):
         return sub(slice_(t[2], 0, w), slice_(t[3], 0, w))
     if lo == 0 and op == "neg":
         return neg(slice_(t[2], 0, w))
+    if op == "mul" and len(t) == 4 and 2 * lo == t[1] and 2 * w == t[1] and \
+            t[2][0] != "const" and t[3][0] != "const" and not (
+                t[2][0] == "concat" and is_zero(t[2][-1]) and t[3][0] == "concat" and is_zero(t[3][-1])):
+        # schoolbook: hi(a*b) = a_hi*b_lo + a_lo*b_hi + hi(zext(a_lo)*zext(b_lo))   (mod 2^w)
+        a, b = t[2], t[3]
+        alo, ahi = slice_(a, 0, w), slice_(a, w, w)
+        blo, bhi = slice_(b, 0, w), slice_(b, w, w)
+        parts = []
+        if not is_zero(ahi):
+            parts.append(nary("mul", w, [ahi, blo]))
+        if not is_zero(bhi):
+            parts.append(nary("mul", w, [alo, bhi]))
+        parts.append(slice_(nary("mul", 2 * w, [zext(alo, 2 * w), zext(blo, 2 * w)]), w, w))
+        return nary("add", w, parts)
     if op == "mul" and lo > 0:
         # mul(x, concat(0:k, y)) with k >= lo: bits [lo,..) = low bits of mul(x, that >> lo)
         for x in t[2:]:
@@ -378,6 +392,52 @@ def nary(op, w, xs):
                 order.append(x)
             cnt[id(x)] += 1
         rest = [x for x in order if cnt[id(x)] % 2]
+    if w == 1 and op in ("and", "or") and len(rest) >= 2:
+        want = "eq" if op == "and" else "ne"
+        changed = True
+        while changed:
+            changed = False
+            cmps = [x for x in rest if x[0] == "icmp" and x[2] == want]
+            for p in cmps:
+                for q in cmps:
+                    if p is q:
+                        continue
+                    for (pa, pb) in ((p[3], p[4]), (p[4], p[3])):
+                        ma = _merge(pa, q[3])
+                        mb = _merge(pb, q[4])
+                        if ma is not None and mb is not None and ma[0] in ("arg", "const", "mem") \
+                                and mb[0] in ("arg", "const", "mem"):
+                            rest = [x for x in rest if x is not p and x is not q]
+                            rest.append(icmp(want, ma, mb))
+                            changed = True
+                            break
+                    if changed:
+                        break
+                if changed:
+                    break
+        if len(rest) == 1:
+            return rest[0]
+    if w == 1 and op == "and" and len(rest) >= 2:
+        eqs = [x for x in rest if x[0] == "icmp" and x[2] == "eq"]
+        for e_ in eqs:
+            keep = []
+            for x in rest:
+                if x is not e_ and x[0] == "icmp" and ((x[3] is e_[3] and x[4] is e_[4])):
+                    if x[2] in ("ule", "uge", "sle", "sge"):
+                        continue
+                    if x[2] in ("ult", "ugt", "slt", "sgt", "ne"):
+                        return const(1, 0)
+                keep.append(x)
+            rest = keep
+        if len(rest) == 1:
+            return rest[0]
+    if w == 1 and op == "or" and len(rest) >= 2:
+        m = _lexmerge(rest)
+        while m is not None:
+            rest = m
+            m = _lexmerge(rest) if len(rest) >= 2 else None
+        if len(rest) == 1:
+            return rest[0]
     if op == "and" and w >= 1:
         reps = [x for x in rest if x[0] == "rep" or (w == 1 and False)]
         if reps and len(rest) >= 2:
@@ -385,6 +445,8 @@ def nary(op, w, xs):
             others = [x for x in rest if x is not r]
             inner = nary("and", w, others) if len(others) > 1 else others[0]
             return select(r[2], inner, const(w, 0))
+    if op in ("or", "and", "xor") and len(rest) >= 2 and all(x[0] == "rep" for x in rest):
+        return rep(w, nary(op, 1, [x[2] for x in rest]))
     if op == "or" and len(rest) >= 2:
         # or(select(c,a,0), select(c,0,b)) -> select(c,a,b)
         sels = [x for x in rest if x[0] == "select"]
@@ -397,6 +459,11 @@ def nary(op, w, xs):
                     others = [x for x in rest if x is not p and x is not q]
                     m = select(p[2], p[3], q[4])
                     return nary("or", w, others + [m]) if others else m
+    if op == "add" and len(rest) == 2:
+        cs2 = [x for x in rest if all_ones(x)]
+        zs = [x for x in rest if x[0] == "concat" and len(x) == 4 and x[2][1] == 1 and is_zero(x[3])]
+        if cs2 and zs:
+            return rep(w, not_(zs[0][2]))
     if op == "add":
         # add(x, neg y) -> sub
         negs = [x for x in rest if x[0] == "neg"]
@@ -447,6 +514,8 @@ def sub(a, b):
 
 
 def neg(a):
+    if a[0] == "concat" and len(a) == 4 and a[2][1] == 1 and is_zero(a[3]):
+        return rep(a[1], a[2])
     if a[0] == "const":
         return const(a[1], -a[2])
     if a[0] == "neg":
@@ -553,6 +622,130 @@ def eval_icmp(pred, a, b, w):
             "uge": a >= b, "slt": a < b, "sle": a <= b, "sgt": a > b, "sge": a >= b}[pred]
 
 
+def fdecode(v, w):
+    """IEEE bit pattern -> python float (exact for comparisons)"""
+    import struct
+    if w == 32:
+        return struct.unpack("<f", struct.pack("<I", v))[0]
+    if w == 64:
+        return struct.unpack("<d", struct.pack("<Q", v))[0]
+    raise Uneval("float width")
+
+
+def fencode(x, w):
+    import struct
+    if x != x:
+        raise Uneval("NaN result")
+    if w == 32:
+        try:
+            return struct.unpack("<I", struct.pack("<f", x))[0]
+        except OverflowError:
+            return 0x7F800000 if x > 0 else 0xFF800000
+    return struct.unpack("<Q", struct.pack("<d", x))[0]
+
+
+def eval_farith(o, a, b, w):
+    """IEEE round-to-nearest result of a binary float op on bit patterns
+    (float32 via double: innocuous double rounding for + - * / sqrt)."""
+    import math
+    x, y = fdecode(a, w), fdecode(b, w)
+    if x != x or y != y:
+        raise Uneval("NaN operand")
+    try:
+        if o == "fadd":
+            r = x + y
+        elif o == "fsub":
+            r = x - y
+        elif o == "fmul":
+            r = x * y
+        elif o == "fdiv":
+            if y == 0:
+                if x == 0:
+                    raise Uneval("0/0")
+                neg_ = (math.copysign(1, x) < 0) != (math.copysign(1, y) < 0)
+                r = -math.inf if neg_ else math.inf
+            else:
+                r = x / y
+        else:
+            raise Uneval(o)
+    except OverflowError:
+        raise Uneval("overflow")
+    return fencode(r, w)
+
+
+def fsub(w, a, b):
+    """x - c == x + (-c) (LLVM canonical form)"""
+    if b[0] == "const":
+        return opc("fadd", w, a, const(w, b[2] ^ (1 << (w - 1))))
+    return mk("fsub", w, a, b)
+
+
+def eval_fcmp(pred, a, b, w):
+    x, y = fdecode(a, w), fdecode(b, w)
+    un = (x != x) or (y != y)
+    if pred == "ord":
+        return not un
+    if pred == "uno":
+        return un
+    base = {"eq": x == y, "ne": x != y, "lt": x < y, "le": x <= y, "gt": x > y, "ge": x >= y}[pred[1:]]
+    if pred[0] == "o":
+        return (not un) and base
+    return un or base
+
+
+FLIPSIGN = {"ult": "slt", "slt": "ult", "ule": "sle", "sle": "ule", "ugt": "sgt", "sgt": "ugt",
+            "uge": "sge", "sge": "uge", "eq": "eq", "ne": "ne"}
+
+
+def _signflip(t):
+    """if t == x xor signbit (as concat{x[0:w-1], not msb(x)}), return x"""
+    if t[0] == "concat" and t[-1][0] == "not" and t[-1][1] == 1:
+        x = concat(list(t[2:-1]) + [t[-1][2]])
+        if x[0] in ("arg", "mem", "slice"):
+            return x
+    return None
+
+
+def _oriented(c, x):
+    """icmp c as (pred, x, other) with x first, or None"""
+    if c[3] is x:
+        return c[2], c[3], c[4]
+    if c[4] is x:
+        return SWAP[c[2]], c[4], c[3]
+    return None
+
+
+def _lexmerge(rest):
+    """or(P(hi), and(Q(lo), eq(hi))) -> one wide compare (1-bit terms)"""
+    for P in rest:
+        if P[0] != "icmp" or P[2] not in ("ugt", "ult", "sgt", "slt"):
+            continue
+        for A in rest:
+            if A is P or A[0] != "and" or len(A) != 4:
+                continue
+            for E, Q in ((A[2], A[3]), (A[3], A[2])):
+                if E[0] != "icmp" or E[2] != "eq" or Q[0] != "icmp":
+                    continue
+                if not ((E[3] is P[3] and E[4] is P[4]) or (E[3] is P[4] and E[4] is P[3])):
+                    continue
+                xh, yh = P[3], P[4]
+                for ql, qr in ((Q[3], Q[4]), (Q[4], Q[3])):
+                    mx = _merge(ql, xh)
+                    my = _merge(qr, yh)
+                    if mx is None or my is None:
+                        continue
+                    qp = Q[2] if ql is Q[3] else SWAP[Q[2]]
+                    if qp[0] != "u":
+                        continue
+                    pp = P[2]
+                    if pp[1] != qp[1]:      # direction (g/l) must agree
+                        continue
+                    newp = pp[0] + qp[1:]
+                    others = [x for x in rest if x is not P and x is not A]
+                    return others + [icmp(newp, mx, my)]
+    return None
+
+
 def icmp(pred, a, b):
     w = a[1]
     assert b[1] == w
@@ -601,6 +794,11 @@ def icmp(pred, a, b):
             if b[2] >> lo_w == 0:
                 return icmp(pred, concat(list(a[2:-1])), const(lo_w, b[2]))
             return const(1, int(pred == "ne"))
+    fa, fb = _signflip(a), _signflip(b)
+    if fa is not None and fb is not None and pred not in ("eq", "ne"):
+        return icmp(FLIPSIGN[pred], fa, fb)
+    if fa is not None and b[0] == "const" and pred not in ("eq", "ne"):
+        return icmp(FLIPSIGN[pred], fa, const(w, b[2] ^ (1 << (w - 1))))
     if b[0] != "const" and ser(a) > ser(b):
         a, b = b, a
         pred = SWAP[pred]
@@ -654,6 +852,12 @@ def select(c, a, b):
                 x, y = (a[2] >> i) & 1, (b[2] >> i) & 1
                 parts.append(const(1, x) if x == y else (c if x else not_(c)))
             return concat(parts)
+    if a[0] == "rep" and b[0] == "const" and (b[2] == 0 or b[2] == mask(w)):
+        return rep(w, select(c, a[2], const(1, 1 if b[2] else 0)))
+    if b[0] == "rep" and a[0] == "const" and (a[2] == 0 or a[2] == mask(w)):
+        return rep(w, select(c, const(1, 1 if a[2] else 0), b[2]))
+    if a[0] == "rep" and b[0] == "rep":
+        return rep(w, select(c, a[2], b[2]))
     if w == 1:
         if a[0] == "const":
             return or_(c, b) if a[2] else and_(not_(c), b)
@@ -861,6 +1065,18 @@ def _ev(t, env, memo):
         return int(eval_icmp(t[2], ev(t[3], env, memo), ev(t[4], env, memo), t[3][1]))
     if o == "select":
         return ev(t[3], env, memo) if ev(t[2], env, memo) else ev(t[4], env, memo)
+    if o in ("fadd", "fsub", "fmul", "fdiv"):
+        return eval_farith(o, ev(t[2], env, memo), ev(t[3], env, memo), w)
+    if o == "call:llvm.sqrt":
+        import math
+        x = fdecode(ev(t[2], env, memo), w)
+        if x != x or x < 0:
+            raise Uneval("sqrt domain")
+        return fencode(math.sqrt(x), w)
+    if o == "call:llvm.fabs":
+        return ev(t[2], env, memo) & (M >> 1)
+    if o == "fcmp":
+        return int(eval_fcmp(t[2], ev(t[3], env, memo), ev(t[4], env, memo), t[3][1]))
     if o in ("shl", "lshr", "ashr", "shlsat", "lshrsat", "ashrsat"):
         x = ev(t[2], env, memo)
         a = ev(t[3], env, memo)
